@@ -271,6 +271,13 @@ func runC09(c *Ctx) {
 			ok := len(lf["Key"]) == 1 && lf["Key"][0].Val == minKey && len(lf["Cost"]) == 1 && lf["Cost"][0].Val == minCost
 			L.Check(ok, "R-C09-VICTIM", "defaultPolicy.Add#item", "victim item carries the arg-min key and cost", "the victim item's Key/Cost are not the arg-min's (the applier would delete a different entry than the policy dropped)", lit.Pos())
 		}
+		// the victim list and the candidate sample start empty: a pre-sized slice would hand nil entries to the
+		// applier's victim loop (nil dereference) or to the scan
+		eachInstr(fn, func(in ssa.Instruction) {
+			if mk, ok := in.(*ssa.MakeSlice); ok && !isConst(mk.Len, "0") {
+				L.Fail("R-C09-VICTIM", "defaultPolicy.Add#item", "a slice is made with non-zero length "+tb.T(mk.Len).String()+" in Add: the victims / sample then start with nil entries", mk.Pos())
+			}
+		})
 		// removal from sample: sample[minId] = sample[len-1]; sample = sample[:len-1]
 		// decided on SSA identity (the sample value feeds its own phi, so term strings would be cyclic)
 		isLenMinus1 := func(v ssa.Value) bool {
